@@ -14,7 +14,8 @@
     watcher order and consumer order are arbitrary: they are part of [steps]). *)
 From EG.lib Require Import Base.
 From EG.model Require Import Registry.
-From EG.proofs Require Import RegistryProofs RegistryProofsB RegistryProofsC RegistryProofsD RegistryProofsE.
+From EG.model Require Import RegistryCheck.
+From EG.proofs Require Import RegistryProofs RegistryProofsB RegistryProofsC RegistryProofsD RegistryProofsE RegistryProofsF.
 Open Scope N_scope.
 
 (** for every snapshot sequence, every panic oracle and every scheduling, the calls a consumer
@@ -157,6 +158,115 @@ Theorem C20_apply_exactly_once : forall pan n news,
   ap_ent (fst (apply_exec pan 0 n news ((None, None), []))) = snd (spec_log 0 n None news).
 Proof. exact apply_exactly_once. Qed.
 Print Assumptions C20_apply_exactly_once.
+
+(** *** SOUNDNESS of the trace-level property checker [prop_obs] (model/RegistryCheck.v), the function
+    evaluated on the implementation's own observables in every run.
+
+    Vocabulary (proofs/RegistryProofsF.v): [news_of w c n] = what consumer [w] is meant to see of
+    name [n], snapshot by snapshot; [view news i] / [before news i] = its config at position [i] /
+    [i-1] ([None] = absent); [run_start news i] = position of its latest config change
+    ([C20_run_start_spec]); [gen news i] = the generation that must be live after snapshot [i]
+    (latest config, born at [run_start]); [events_at i W] = the callbacks carrying snapshot index [i],
+    in log order; [step_ok n news i ev] = one clause per case of the property (stay absent: nothing;
+    appear / REappear: one Init of a fresh generation; disappear: one Close of the live generation;
+    same bytes: untouched; changed, same kind: one Inherit with the live generation as predecessor;
+    kind changed: Close of the old generation THEN Init of the new one). *)
+
+(** for EVERY observed history (any names, any number and content of snapshots, any log, any
+    per-snapshot observations) of the supervisor group: if the checker accepts it, then - with
+    explicit quantifiers over names [n], positions [i] and log entries [e] - no panic escaped, there
+    is no stray callback, every position of every name satisfies [step_ok] and the callbacks of
+    position [i] sit after all those of earlier and before all those of later positions, after each
+    snapshot the live set is exactly the snapshot's names each at the generation of its latest
+    config (and registry / watcher entities are the snapshot), and a panicking callback leaves the
+    other names of its snapshot reconciled *)
+Theorem C20_checker_sound : forall c crash log obs,
+  k_grp c = 0 ->
+  prop_obs c crash log obs = true ->
+  let names := k_names c in
+  let len := List.length (k_steps c) in
+  crash = false /\
+  (forall e, In e log -> l_who e = 0 /\ In (entry_name e) names /\ (N.to_nat (l_step e) < len)%nat) /\
+  (forall n, In n names -> forall i, (i < len)%nat ->
+     let W := calls_of 0 n log in
+     step_ok n (news_of 0 c n) i (events_at i W) /\
+     exists Wpre Wpost,
+       W = Wpre ++ map (pair (N.of_nat i)) (events_at i W) ++ Wpost /\
+       (forall y, In y Wpre -> fst y < N.of_nat i) /\
+       (forall y, In y Wpost -> N.of_nat i < fst y)) /\
+  List.length obs = len /\
+  (forall i, (i < len)%nat ->
+     let o := nth i obs empty_obs in
+     let cfg := cfg_of (nth i (k_steps c) []) in
+     (forall n g, In (n, g) (drop_gen (so_sup o)) <-> In n names /\ gen (news_of 0 c n) i = Some g) /\
+     (forall n s, In (n, s) (so_reg o) <-> In n names /\ cfg n = Some s) /\
+     (forall n s, In (n, s) (so_w0 o) <-> In n names /\ filt 0 (cfg n) = Some s) /\
+     (forall n s, In (n, s) (so_w1 o) <-> In n names /\ filt 1 (cfg n) = Some s)) /\
+  (forall e, In e log -> l_pan e = true ->
+     forall n, In n names -> n <> entry_name e ->
+       step_ok n (news_of 0 c n) (N.to_nat (l_step e)) (events_at (N.to_nat (l_step e)) (calls_of 0 n log))).
+Proof. exact checker_sound. Qed.
+Print Assumptions C20_checker_sound.
+
+(** any group (two consumers; the real Pipeline objects cannot record calls): the observed calls of
+    every consumer are the visible part of the automaton's word - which satisfies [step_ok] at every
+    position by [C20_spec_word_sound] - and the live sets are the predicted generations *)
+Theorem C20_checker_sound_any_group : forall c crash log obs,
+  prop_obs c crash log obs = true ->
+  let names := k_names c in
+  let len := List.length (k_steps c) in
+  crash = false /\
+  (forall e, In e log -> In (entry_name e) names /\ In (l_who e) (consumers (k_grp c))) /\
+  (forall n w, In n names -> In w (consumers (k_grp c)) ->
+     calls_of w n log = vis_calls (k_grp c) (fst (spec_log 0 n None (news_of w c n)))) /\
+  List.length obs = len /\
+  (forall i, (i < len)%nat ->
+     let o := nth i obs empty_obs in
+     (forall n g, In (n, g) (drop_gen (so_sup o)) <-> In n names /\ gen (news_of 0 c n) i = Some g) /\
+     (k_grp c <> 0 ->
+        (forall n g, In (n, g) (drop_gen (so_gate o)) <-> In n names /\ live_gate (gen (news_of 1 c n) i) = Some g) /\
+        (forall n g, In (n, g) (drop_gen (so_pipe o)) <-> In n names /\ live_pipe (gen (news_of 1 c n) i) = Some g))).
+Proof. exact checker_sound_any_group. Qed.
+Print Assumptions C20_checker_sound_any_group.
+
+(** the word of the lifecycle automaton itself (the specification every other C20 theorem refers to)
+    satisfies the declarative clauses at every position, and its state is [gen] *)
+Theorem C20_spec_word_sound : forall n news i,
+  (i < List.length news)%nat ->
+  let W := fst (spec_log 0 n None news) in
+  step_ok n news i (events_at i W) /\
+  (exists Wpre Wpost,
+      W = Wpre ++ map (pair (N.of_nat i)) (events_at i W) ++ Wpost /\
+      (forall y, In y Wpre -> fst y < N.of_nat i) /\
+      (forall y, In y Wpost -> N.of_nat i < fst y)) /\
+  snd (spec_log 0 n None (firstn (S i) news)) = gen news i.
+Proof. exact spec_word_sound. Qed.
+Print Assumptions C20_spec_word_sound.
+
+(** "the generation of its latest config": [run_start news i] is the position of the latest change *)
+Theorem C20_run_start_spec : forall news i,
+  (run_start news i <= i)%nat /\
+  (forall k, (run_start news i <= k <= i)%nat -> view news k = view news i) /\
+  (run_start news i = O \/ view news (run_start news i - 1) <> view news i).
+Proof. exact run_start_spec. Qed.
+Print Assumptions C20_run_start_spec.
+
+(** a reappearing name (present, absent, present with identical bytes) is created again *)
+Theorem C20_checker_reappears : forall n news i ev s,
+  step_ok n news i ev -> before news i = None -> view news i = Some s -> ev = [Init n (mk s i)].
+Proof. exact step_ok_reappears. Qed.
+Print Assumptions C20_checker_reappears.
+
+(** non-vacuity of the soundness theorem: a concrete history that the checker accepts *)
+Example C20_checker_nonvacuous :
+  prop_obs nv_case false nv_log nv_obs = true /\
+  calls_of 0 1 nv_log =
+    [(0, Init 1 (mk nv_A1 0)); (1, Inherit 1 (mk nv_A2 1) (mk nv_A1 0)); (2, Close 1 (mk nv_A2 1));
+     (3, Init 1 (mk nv_A2 3)); (4, Close 1 (mk nv_A2 3))] /\
+  calls_of 0 0 nv_log =
+    [(0, Init 0 (mk nv_A1 0)); (2, Close 0 (mk nv_A1 0)); (2, Init 0 (mk nv_B1 2)); (4, Close 0 (mk nv_B1 2))] /\
+  List.length (filter l_pan nv_log) = 2%nat.
+Proof. exact checker_nonvacuous. Qed.
 
 (** non-vacuity: a concrete two-name, five-snapshot run with a firing panic oracle satisfies the
     hypotheses and produces a non-trivial log *)
